@@ -1,5 +1,5 @@
 """C28 - cloning a tree gives an independent equal copy; walking visits every node (DESIGN 7/C28)."""
-import json, concurrent.futures
+import json, re, concurrent.futures
 import rig
 from rig import Infra
 
@@ -8,19 +8,29 @@ META = {
     "title": "AstTree",
     "engine": "AstTree",
     "technique": "schema of package ast obtained by reflection at check time; TLA+ reference of Clone (fresh identities, equal shape) and Walk "
-                 "(pre-order, each node once) model-checked by TLC on every small tree over the schema's field shapes; corpus of templates "
-                 "covering every node type parsed by the real parser; for every node of every tree the pointer graphs of the subtree, of its "
-                 "clone and of the original after mutating the clone, and the Visit callbacks of Walk/Inspect, are judged by a TLC Trace spec",
+                 "(pre-order, each node once, nothing but nodes) model-checked by TLC on every small tree over the schema's field shapes; a "
+                 "TLA+ grammar of the template language with choice points (AstTreeGen) from which TLC enumerates the case space: every "
+                 "production with every combination of its optional parts (space A), every production at every place of every production "
+                 "(space B); plus a corpus of templates covering every node type; all parsed by the real parser; for every node of every "
+                 "tree the pointer graphs of the subtree, of its clone and of the original after mutating the clone, and the Visit "
+                 "callbacks of Walk/Inspect, are judged by a TLC Trace spec",
     "level": "exploration",
-    "level_text": "Exploration: the trees judged on the real code come from a hand-written corpus (every ast node type except those listed in "
-                  "kinds_not_covered), each node of each tree being the root of one observation per API. The TLA+ part states the property "
-                  "(isomorphic, pointer-disjoint, original unchanged after mutating the copy; every node visited exactly once) and is "
-                  "model-checked on all trees of <= 3 (quick) / 4 (thorough) nodes over the reflected schema, including rejection of a "
-                  "shallow clone and of a walk that drops a node.",
-    "level_note": "Trusted: TLC, Json module, the reflection-based graph logger/mutator of the driver (no oracle), go/parser for the cross-check "
-                  "that every struct type of ast.go is in the schema. Fields filled by the type checker (IR, Upvars, Reflect) are outside the "
-                  "graphs. Expanded trees of other files (Import/Extends/Render .Tree) must be cloned but are not required to be walked. "
-                  "Callback order and typed-nil callbacks are diagnostic only.",
+    "level_text": "Exploration: the trees judged on the real code are those the real parser builds for (1) the TLC-enumerated sources of the "
+                  "grammar AstTreeGen (80 productions of template statements, script statements, simple statements, expressions and types); "
+                  "space A: all combinations of the alternatives of each production (every optional child absent and present, lists of "
+                  "0/1/2 elements), exhaustive in both tiers; space B: each production nested at each place of each production, with its "
+                  "emptiest and fullest alternatives (one of 14 slices, selected by the seed, in the quick tier; all in the thorough tier) - and (2) a hand-written "
+                  "corpus (every ast node type except those listed in kinds_not_covered); each node of each tree is the root of one "
+                  "observation per API. The TLA+ part states the property (isomorphic, pointer-disjoint, original unchanged after mutating "
+                  "the copy; every node visited exactly once and every callback made with a node) and is model-checked on all trees of "
+                  "<= 3 (quick) / 4 (thorough) nodes over the reflected schema, including rejection of a shallow clone, of a walk that "
+                  "drops a node and of a walk that makes a callback with a nil child.",
+    "level_note": "Trusted: TLC, Json module, the reflection-based graph logger/mutator of the driver (no oracle; it concatenates the tokens of "
+                  "a generated case), go/parser for the cross-check that every struct type of ast.go is in the schema. The grammar says "
+                  "nothing about the tree the parser must build; generated sources the parser rejects are outside the property's "
+                  "quantifier (counted in gen_rejected; none is tolerated in space A). Fields filled by the type checker (IR, Upvars, "
+                  "Reflect) are outside the graphs. Expanded trees of other files (Import/Extends/Render .Tree) must be cloned but are not "
+                  "required to be walked. Callback order and callbacks with nodes of other trees are diagnostic only.",
     "design_ref": "7/C28",
 }
 FAMS = ["asttree"]
@@ -64,7 +74,7 @@ _PROPOSED_BEFORE_FIXES = (
 def mc(ctx, wd):
     cfgs = [{"MaxNodes": 3, "MaxList": 2, "ChildFields": 1}] if ctx.quick else \
            [{"MaxNodes": 4, "MaxList": 2, "ChildFields": 1}, {"MaxNodes": 3, "MaxList": 2, "ChildFields": 2}]
-    invs = ["WalkIsPreOrder", "WalkEachOnce", "CloneAccepted", "ShallowRejected", "DroppedRejected", "Bounded"]
+    invs = ["WalkIsPreOrder", "WalkEachOnce", "WalkOnlyNodes", "CloneAccepted", "ShallowRejected", "DroppedRejected", "SpuriousRejected", "Bounded"]
     distinct, generated, wall, never = 0, 0, 0.0, []
     for consts in cfgs:
         rig.write_cfg(wd / "MC_AstTree.cfg", constants=consts, invariants=invs)
@@ -74,6 +84,62 @@ def mc(ctx, wd):
     ctx.cov.update(states=distinct, transitions=generated, mc_wall_s=round(wall, 1), mc_invariants=invs, bounds=json.dumps(cfgs))
     if not ctx.quick:
         ctx.cov["actions_never_taken"] = sorted(set(never))
+
+
+def gen_name(c):
+    n = "gen:%s:%s.%s/%s" % (c["space"], c["nt"], c["p"], ".".join(map(str, c["v"])))
+    if c["space"] == "B":
+        n += "@%d<%s.%s/%s" % (c["slot"], c["qnt"], c["q"], ".".join(map(str, c["qv"])))
+    return n
+
+
+B_SLICES = 14     # quick tier: space B is cut in this many slices, the seed selects one
+
+
+def gen(ctx, full):
+    """TLC enumerates the generated case space (spec/asttree/AstTreeGen.tla): space A, and space B in full or the
+    slice selected by the seed; returns the cases, one per distinct source."""
+    wd = ctx.stage("gen", FAMS)
+    consts = {"BMod": 1 if full else B_SLICES, "Seed": ctx.seed % B_SLICES}
+    rig.write_cfg(wd / "MC_AstTreeGen.cfg", constants=consts, invariants=["Export", "WellFormed"])
+    r = ctx.tlc(wd, "MC_AstTreeGen", workers=rig.NCPU, timeout=1700, must_pass=True)
+    found = [json.loads(json.loads(m.group(1))) for m in (re.match(r'^<<"CASE", (".*")>>$', line) for line in r.out.splitlines()) if m]
+    m = re.search(r"Finished computing initial states: (\d+) distinct", r.out)
+    if not m or len(found) != r.distinct - int(m.group(1)):     # every case state must have been exported
+        raise Infra("generated case space: %d exported cases for %s states (see %s/MC_AstTreeGen.out)" % (len(found), r.distinct, wd))
+    for c in found:
+        c["name"] = gen_name(c)
+    cases, seen = [], set()
+    for c in sorted(found, key=lambda c: (c["space"], c["name"])):
+        src = "".join(c["toks"])
+        if src not in seen:        # (the same text can be reached through two derivations)
+            seen.add(src)
+            cases.append(c)
+    if not cases or len({c["name"] for c in cases}) != len(cases):
+        raise Infra("generated case space: no cases or ambiguous names (%d cases)" % len(cases))
+    ctx.cov.update(gen_states=r.distinct, gen_wall_s=round(r.wall, 1), gen_bounds=json.dumps(consts), gen_productions=len({(c["nt"], c["p"]) for c in cases}),
+                   gen_cases_A=sum(1 for c in cases if c["space"] == "A"), gen_cases_B=sum(1 for c in cases if c["space"] == "B"))
+    return cases
+
+
+def optional_children(obs):
+    """Measured coverage of absent / present children: for every (kind, single-child field) whether a nil and a non-nil
+    occurrence was observed, for every (kind, list field) whether an empty and a non-empty list was observed."""
+    one, lst = {}, {}
+    for o in obs:
+        if o["api"] != "CloneNode" or o["sub"] != 0:
+            continue
+        for n in o["orig"]["nodes"]:
+            for f in n["f"]:
+                if f["m"] == "one":
+                    one.setdefault(n["k"] + "." + f["n"], set()).add(f["c"] == [0])
+                elif f["m"] == "list":
+                    lst.setdefault(n["k"] + "." + f["n"], set()).add(len(f["c"]) == 0)
+    return {"single_child_fields_seen": len(one), "single_child_fields_seen_nil_and_non_nil": sum(1 for v in one.values() if len(v) == 2),
+            "single_child_fields_seen_nil": sorted(k for k, v in one.items() if True in v),
+            "single_child_fields_never_nil": sorted(k for k, v in one.items() if True not in v),
+            "list_fields_seen": len(lst), "list_fields_seen_empty": sorted(k for k, v in lst.items() if True in v),
+            "list_fields_never_empty": sorted(k for k, v in lst.items() if True not in v)}
 
 
 def judge(ctx, step, obs):
@@ -95,8 +161,11 @@ def skey(sig):
     return json.dumps(sig, sort_keys=True)
 
 
+SOURCES = {}
+
+
 def what(o, sig):
-    return {"template": o["tree"], "api": o["api"], "subtree_root": o["kind"], "subtree_nodes": len(o["orig"]["nodes"]),
+    return {"template": o["tree"], "source": SOURCES.get(o["tree"], "(corpus)"), "api": o["api"], "subtree_root": o["kind"], "subtree_nodes": len(o["orig"]["nodes"]),
             "kinds": [n["k"] for n in o["orig"]["nodes"]][:12], "clone": o["clone"], "walk": o["walk"],
             "wlog": o["wlog"][:40], "signature": sig}
 
@@ -118,20 +187,37 @@ def run(ctx, only=None):
     empty.write_text("")
     ctx.drive("c28", empty, wd / "schema.ndjson", args=["-schema", "-repo", str(rig.REPO)])
     schema = rig.read_ndjson(wd / "schema.ndjson")
-    if only is None:
-        mc(ctx, wd)
+    with concurrent.futures.ThreadPoolExecutor(max_workers=2) as ex:      # the two TLC runs are independent
+        fg = ex.submit(gen, ctx, not ctx.quick if only is None else any(n.startswith("gen:B:") for n in only))
+        fm = ex.submit(mc, ctx, wd) if only is None else None
+        gcases = fg.result()
+        if fm:
+            fm.result()
     cf = ctx.work / "cases.ndjson"
     ctx.drive("c28", empty, cf, args=["-names"])
     cases = rig.read_ndjson(cf)
+    # generated cases: space A always in full; space B in full (thorough, replay) or the slice of the seed (quick)
+    ga = [c for c in gcases if c["space"] == "A"]
+    gb = [c for c in gcases if c["space"] == "B"]
+    for i, c in enumerate(ga + gb):
+        cases.append({"id": 1000 + i, "name": c["name"], "toks": c["toks"], "aux": c["aux"], "space": c["space"]})
+        SOURCES[c["name"]] = "".join(c["toks"])
     if only is not None:
         cases = [c for c in cases if c["name"] in only]
-        rig.write_ndjson(cf, cases)
+    rig.write_ndjson(cf, cases)
     of = ctx.work / "obs.ndjson"
     ctx.drive("c28", cf, of)
     obs = rig.read_ndjson(of)
     bad_parse = [o for o in obs if o["api"] == "parse"]
-    if bad_parse:
-        raise Infra("corpus template rejected by the parser: " + json.dumps(bad_parse[:3]))
+    obs = [o for o in obs if o["api"] != "parse"]
+    # a corpus template or a source of space A rejected by the parser: the corpus / the grammar is wrong (machinery);
+    # a rejected nesting of space B (import inside if, ...) is outside the property's quantifier: skipped and counted
+    fatal = [o for o in bad_parse if not o["tree"].startswith("gen:B:")]
+    if fatal:
+        raise Infra("template rejected by the parser: " + json.dumps([dict(o, source=SOURCES.get(o["tree"])) for o in fatal[:3]]))
+    ctx.cov.update(gen_rejected=len(bad_parse), gen_rejected_examples=[SOURCES[o["tree"]] for o in bad_parse[:5]])
+    if only is None and len(bad_parse) > len(gb) // 4:
+        raise Infra("the parser rejects %d of %d generated nestings: the grammar AstTreeGen does not fit the language" % (len(bad_parse), len(gb)))
     entries = judge(ctx, "trace", obs)
     by = {}
     for b in entries:
@@ -150,8 +236,9 @@ def run(ctx, only=None):
             d = dsum.setdefault(skey(sig), {"sig": sig, "n": 0})
             d["n"] += 1
     ctx.cov.update(evaluations=len(obs), traces_validated_against_impl=len(obs), templates=len(cases),
+                   templates_corpus=sum(1 for c in cases if "toks" not in c), optional_children=optional_children(obs),
                    distinct_nontrivial=len(distinct),
-                   rule="one observation per (node of a corpus tree, API in CloneNode/CloneExpression/CloneTree; Walk+Inspect logged with "
+                   rule="one observation per (node of a corpus or generated tree, API in CloneNode/CloneExpression/CloneTree; Walk+Inspect logged with "
                         "CloneNode); distinct = distinct (API, subtree graph incl. scalars and positions); non-trivial = subtree has more than one node",
                    exhaustive=False,
                    schema_kinds=len(schema), kinds_covered=len(seen), kinds_not_covered=not_cov,
@@ -202,7 +289,8 @@ def selftest(ctx, obs):
     c = json.loads(json.dumps(base)); c["after"]["nodes"][-1]["v"][0][1] += "~"                    # the original changed
     d = json.loads(json.dumps(base)); d["copy"]["nodes"][-1]["k"] += "X"                           # the copy differs
     e = json.loads(json.dumps(base)); i = max(j for j, x in enumerate(e["ilog"]) if x > 0); e["ilog"].insert(i, e["ilog"][i])  # visited twice
-    for n, o in enumerate([a, b, c, d, e]):
+    f = json.loads(json.dumps(base)); f["wlog"][1:1] = [-1, 0]                                     # a callback with a nil child
+    for n, o in enumerate([a, b, c, d, e, f]):
         o["id"] = 900001 + n
         st.append(o)
     rej = {x["id"] for x in judge(ctx, "selftest", st) if x["cls"] == "violation"}
@@ -218,4 +306,4 @@ def replay(ctx, path):
 
 # The defects found by this check were fixed in /repo except those whose repair changes expectations pinned by the
 # existing tests; those are listed in known-findings.json (kind "known").  _PROPOSED_BEFORE_FIXES documents the full set.
-PROPOSED_KNOWN = []
+PROPOSED_KNOWN = []   # integrated into known-findings.json
